@@ -37,6 +37,17 @@ def gen_case(rng: random.Random, tier: str):
                 seed=rng.randrange(1 << 30), chooser=['os'])
 
 
+def gen_rt_case(rng: random.Random, tier: str):
+    """real threads over a plain `queue.Queue` WITH a stop event (never set): `IterableQueue` then uses
+    multiprocessing helper queues (pipes + feeder threads).  Suppliers start staggered (0.3 s apart),
+    the consumers iterate at once, so a consumer is right behind a supplier that has just ended."""
+    m = rng.choice([2, 2, 3])
+    n = rng.choice([1, 1, 2])
+    return dict(kind='rt', m=m, n=n, cap=rng.choice([0, 0, 2]), rounds=1,
+                items=[[[100 * i + j for j in range(rng.choice([1, 1, 2]))] for i in range(m)]],
+                final_renew=rng.random() < 0.7, seed=rng.randrange(1 << 30), chooser=['os'])
+
+
 def nontrivial(case, res):
     return case['m'] + case['n'] >= 3 and any(any(row) for row in case['items'])
 
@@ -61,10 +72,15 @@ def run_case(case):
     m = case['m']
     for k, rec in enumerate(r['rounds']):
         if rec.get('hang'):
-            mon.append(dict(prop='C17', rule='hang', detail=f'round {k}: processes still alive after {JOIN_BOUND}s: {rec["hang"]}'))
+            mon.append(dict(prop='C17', rule='hang', detail=(f'round {k}: threads still blocked 15 s after start (released by a stop request): {rec["hang"]}; received {rec["got"]}'
+                                                            if case.get('kind') == 'rt' else
+                                                            f'round {k}: processes still alive after {JOIN_BOUND}s: {rec["hang"]}')))
             continue
         if rec.get('errors'):
             mon.append(dict(prop='C17', rule='unexpected-exception', detail=f'round {k}: {rec["errors"]}'))
+        if rec.get('ended_early'):
+            mon.append(dict(prop='C17', rule='ended-early', detail=f'round {k}: consumer iteration(s) ended before every supplier had ended: '
+                                                                   f'{rec["ended_early"]}; received {rec["got"]}'))
         got = sorted(x for g in rec['got'] for x in g)
         if got != sorted(rec['put']):
             mon.append(dict(prop='C17', rule='multiset', detail=f'round {k}: received {got}, put {sorted(rec["put"])}'))
@@ -179,6 +195,80 @@ def _child(case):
     print('RESULT ' + json.dumps(dict(rounds=rounds)), flush=True)
 
 
+def _child_rt(case):
+    import queue as _q
+    import threading
+    import time
+
+    from mpservice._common import StopRequested
+    from mpservice.queue import IterableQueue
+
+    m, n = case['m'], case['n']
+    marks = [0]
+
+    class CountQueue(_q.Queue):
+        def _put(self, x):
+            if x is None and threading.current_thread().name.startswith('S'):
+                marks[0] += 1
+            super()._put(x)
+
+    raw = CountQueue(case['cap'])
+    to_stop = threading.Event()
+    iq = IterableQueue(raw, num_suppliers=m, to_stop=to_stop)
+    time.sleep(0.2)      # let the helper queues' feeder threads flush the initial tokens
+    rec = dict(put=[x for row in case['items'][0] for x in row], got=[[] for _ in range(n)])
+    errs, early = [], []
+
+    def sup(i):
+        try:
+            time.sleep(0.3 * i)
+            for x in case['items'][0][i]:
+                iq.put(x)
+            iq.put_end()
+        except BaseException as e:  # noqa
+            errs.append(['S%d' % i, repr(e)])
+
+    def con(j):
+        try:
+            for z in iq:
+                rec['got'][j].append(z)
+            if marks[0] < m:
+                early.append([j, marks[0]])
+        except StopRequested:
+            errs.append(['C%d' % j, 'blocked until the watchdog requested a stop'])
+        except BaseException as e:  # noqa
+            errs.append(['C%d' % j, repr(e)])
+
+    ts = [threading.Thread(target=sup, args=(i,), name=f'S{i}') for i in range(m)]
+    ts += [threading.Thread(target=con, args=(j,), name=f'C{j}') for j in range(n)]
+    for t in ts:
+        t.start()
+    t_end = time.monotonic() + 15.0
+    for t in ts:
+        t.join(max(0.0, t_end - time.monotonic()))
+    if any(t.is_alive() for t in ts):
+        to_stop.set()
+        for t in ts:
+            t.join(5)
+        rec['hang'] = [t.name for t in ts if t.is_alive()] or ['released by the watchdog']
+    if errs:
+        rec['errors'] = errs
+    if early:
+        rec['ended_early'] = early
+    if not rec.get('hang') and not errs:
+        rec['tokens'] = _tokens(iq)
+        if case['final_renew']:
+            try:
+                iq.renew()
+                time.sleep(0.05)
+                rec['after_renew'] = dict(qsize=raw.qsize(), tokens=_tokens(iq))
+            except BaseException as e:  # noqa
+                rec['renew_error'] = repr(e)
+        else:
+            rec['leftover'] = dict(marks=sum(1 for z in raw.queue if z is None), items=sum(1 for z in raw.queue if z is not None))
+    print('RESULT ' + json.dumps(dict(rounds=[rec])), flush=True)
+
+
 def _tokens(iq):
     """sizes of the three private token queues, or None if they cannot be found"""
     try:
@@ -203,6 +293,7 @@ def _drain(data):
 
 
 if __name__ == '__main__':
-    _child(json.loads(sys.argv[1]))
+    _case = json.loads(sys.argv[1])
+    (_child_rt if _case.get('kind') == 'rt' else _child)(_case)
     sys.stdout.flush()
     os._exit(0)
